@@ -1,3 +1,93 @@
 package main
 
-func hostFacts(repo string) {}
+import (
+	"go/ast"
+	"strings"
+)
+
+// hostFacts: lock spans and write order of the mcrew service (C16), timer fire paths (C17),
+// routing loops of the sio crew (C14).
+func hostFacts(repo string) {
+	sf := funcs(parse(repo, "cmd/mcrew/service.go"))
+	names := map[string]bool{"Lock": true, "Unlock": true, "RLock": true, "RUnlock": true, "WriteState": true,
+		"Route": true, "GetSpec": true, "Walk": true, "Process": true}
+	for _, fn := range []string{"Service.Process", "Service.AddMachine", "Service.RemMachine"} {
+		if fd := sf[fn]; fd != nil {
+			seqs[fn] = callSeq(fd, names)
+			// where the in-memory crew is changed, relative to the write
+			var order []string
+			ast.Inspect(fd.Body, func(n ast.Node) bool {
+				switch x := n.(type) {
+				case *ast.AssignStmt:
+					for _, l := range x.Lhs {
+						t := text(l)
+						if strings.Contains(t, "Machines[") {
+							order = append(order, "mem:"+t)
+						}
+					}
+				case *ast.CallExpr:
+					if id, ok := x.Fun.(*ast.Ident); ok && id.Name == "delete" && len(x.Args) > 0 && strings.Contains(text(x.Args[0]), "Machines") {
+						order = append(order, "mem:delete")
+					}
+					if sel, ok := x.Fun.(*ast.SelectorExpr); ok && sel.Sel.Name == "WriteState" {
+						order = append(order, "write")
+					}
+				}
+				return true
+			})
+			seqs[fn+".order"] = order
+		}
+	}
+	// timers: the fire path decides under the lock, by entry identity, before emitting
+	tf := funcs(parse(repo, "cmd/mcrew/timers.go"))
+	if fd := tf["Timers.Add"]; fd != nil {
+		seqs["mcrew.Timers.Add"] = callSeq(fd, map[string]bool{"Lock": true, "Unlock": true, "emit": true, "delete": true, "NewTimer": true, "Rem": true})
+		ast.Inspect(fd.Body, func(n ast.Node) bool {
+			if cc, ok := n.(*ast.CommClause); ok && cc.Comm != nil && strings.Contains(text(cc.Comm), "timer.C") {
+				for _, s := range cc.Body {
+					if ifs, ok := s.(*ast.IfStmt); ok {
+						addStmt("mcrew.Timers.fire.guard", text(ifs.Cond))
+					}
+				}
+			}
+			return true
+		})
+	}
+	stf := funcs(parse(repo, "sio/timers.go"))
+	if fd := stf["TimerEntry.run"]; fd != nil {
+		seqs["sio.TimerEntry.run"] = callSeq(fd, map[string]bool{"Lock": true, "Unlock": true, "Emitter": true, "delete": true, "changed": true})
+		ast.Inspect(fd.Body, func(n ast.Node) bool {
+			if cc, ok := n.(*ast.CommClause); ok && cc.Comm != nil && strings.Contains(text(cc.Comm), "t.C") {
+				for _, s := range cc.Body {
+					if ifs, ok := s.(*ast.IfStmt); ok {
+						addStmt("sio.TimerEntry.fire.guard", text(ifs.Cond))
+					}
+				}
+			}
+			return true
+		})
+	}
+	if fd := stf["Timers.add"]; fd != nil {
+		seqs["sio.Timers.add"] = callSeq(fd, map[string]bool{"cancel": true, "changed": true, "run": true})
+	}
+	// sio crew: recipients are de-duplicated; emitted messages are appended to the end of the queue
+	cf := funcs(parse(repo, "sio/crew.go"))
+	if fd := cf["Crew.ProcessMsg"]; fd != nil {
+		ast.Inspect(fd.Body, func(n ast.Node) bool {
+			if as, ok := n.(*ast.AssignStmt); ok && len(as.Lhs) == 1 && text(as.Lhs[0]) == "pending" && len(as.Rhs) == 1 {
+				addStmt("Crew.ProcessMsg.pending", text(as.Rhs[0]))
+			}
+			return true
+		})
+	}
+	if fd := cf["Crew.allMachines"]; fd != nil {
+		ast.Inspect(fd.Body, func(n ast.Node) bool {
+			if cc, ok := n.(*ast.CaseClause); ok {
+				for _, e := range cc.List {
+					addStmt("Crew.allMachines.case", text(e))
+				}
+			}
+			return true
+		})
+	}
+}
